@@ -11,7 +11,7 @@ CONSTANTS
   MaxPings = 0
   Workers <- WS1
   Heartbeat = FALSE
-  Reply <- ReplyChat
+  Reply <- ReplyUni
   ExtScript <- ExtNone
   Mode = "free"
   ShutdownMode = "any"
@@ -19,5 +19,6 @@ CONSTANTS
 INIT Init
 NEXT Next
 SYMMETRY Sym
+VIEW MCView
 INVARIANTS TypeOK CurInStreams DispatchInvs InvocationInvs DeliveryInvs QuiescentComplete
 CHECK_DEADLOCK FALSE
